@@ -30,6 +30,8 @@ BOUND = {
     "quick": "L(5,3) x all (referrer, target) pairs x 6 shapes with default names; one prefix-name deviation over all ordered node pairs for the plain shape; error-side catalogue",
     "thorough": "L(6,3) x all pairs x 6 shapes with default names; L(5,3) x {prefix, suffix, equal} one-name deviations over all ordered node pairs x {plain, two}; error-side catalogue",
 }
+# as-built additions to the bound (kept next to BOUND so that the evidence reports them)
+BOUND = {k: v + "; plus: " + 'deep layouts: referrer and target on branches of depth 0..3 (quick) / 0..4 (thorough) below a shared repeat or group under 0..2 wrappers; equal-name deviations on L(4,3) in the quick tier; ambiguous names with 2-5 copies' for k, v in BOUND.items()}
 
 NAMES = ["a", "b", "c", "d", "e", "f", "g", "h", "i", "j", "k", "l", "m", "n", "o", "p"]
 CHOICES = [{"list_name": "c", "name": "x", "label": "X", "cf": "1"}, {"list_name": "c", "name": "y", "label": "Y", "cf": "2"}]
